@@ -27,6 +27,8 @@ var mutatorNames = []string{
 }
 var snapshotNames = []string{"Values", "Keys"}
 
+const hookPrefix = "Verif"
+
 func inList(xs []string, x string) bool {
 	for _, y := range xs {
 		if x == y {
@@ -42,11 +44,25 @@ type FnInfo struct {
 	Name        string
 	NParams     int
 	SliceParams []int
+	IterParams  []int // parameters whose static type mentions a type named Iterator
 	Exported    bool
 	Method      bool
 	IterMethod  bool
 	Variadic    bool
 	Pkg         string
+}
+
+// mentionsIterator: the type expression mentions (without looking through other named types) a
+// named type called Iterator -- the same name test as typing rule (I) in isIterAddr.
+func mentionsIterator(t types.Type) bool {
+	m := map[string]bool{}
+	mentions(t, m, map[types.Type]bool{})
+	for n := range m {
+		if strings.HasSuffix(n, ".Iterator") {
+			return true
+		}
+	}
+	return false
 }
 
 func recvNamed(f *ssa.Function) *types.Named {
@@ -75,6 +91,17 @@ func describe(r *FuncResult, id int) *FnInfo {
 			fi.SliceParams = append(fi.SliceParams, i)
 		}
 	}
+	for i := 0; i < fi.NParams; i++ {
+		var t types.Type
+		if i < len(f.Params) {
+			t = f.Params[i].Type()
+		} else {
+			t = f.FreeVars[i-len(f.Params)].Type()
+		}
+		if mentionsIterator(t) {
+			fi.IterParams = append(fi.IterParams, i)
+		}
+	}
 	if f.Parent() != nil || f.Synthetic != "" {
 		return fi // anonymous functions and package initialisers are not API
 	}
@@ -88,12 +115,15 @@ func describe(r *FuncResult, id int) *FnInfo {
 }
 
 type Classification struct {
-	Exported, Readonly, Snapshot, Variadic, Iterator, Mutator, Unclassified []int
+	Exported, Readonly, Snapshot, Variadic, Iterator, Mutator, Unclassified, Inits, Hooks []int
 }
 
 func classify(fns []*FnInfo) *Classification {
 	c := &Classification{}
 	for _, fi := range fns {
+		if fi.R.Fn.Synthetic == "package initializer" {
+			c.Inits = append(c.Inits, fi.ID)
+		}
 		if !fi.Exported {
 			continue
 		}
@@ -105,6 +135,11 @@ func classify(fns []*FnInfo) *Classification {
 		switch {
 		case fi.IterMethod:
 			c.Iterator = append(c.Iterator, fi.ID)
+			c.Readonly = append(c.Readonly, fi.ID)
+		case fi.Method && strings.HasPrefix(name, hookPrefix):
+			// observation hooks of the verification harness (files built with -tags=verif): they are
+			// called by the concurrent-reader probes, so they must be read-only and silent
+			c.Hooks = append(c.Hooks, fi.ID)
 			c.Readonly = append(c.Readonly, fi.ID)
 		case fi.Method:
 			ro, mu := inList(readonlyNames, name), inList(mutatorNames, name)
@@ -248,10 +283,11 @@ func emitCoq(world *World, res []*FuncResult) string {
 	w.WriteString("].\n\n")
 
 	w.WriteString("(* per function: number of parameters (formals, then free variables), indices of the slice-typed\n")
-	w.WriteString("   parameters, DIRECT effects, call edges with origin substitution, the tool's own summary *)\n")
+	w.WriteString("   parameters, indices of the parameters whose type mentions an iterator type, DIRECT effects,\n")
+	w.WriteString("   call edges with origin substitution, the tool's own summary *)\n")
 	for _, fi := range fns {
 		r := fi.R
-		fmt.Fprintf(&w, "(* %s *)\nDefinition fn_%d : fn_entry := mkFn %d %s\n  %s\n  [", fi.Name, fi.ID, fi.NParams, coqInts(fi.SliceParams), coqEff(r.Direct))
+		fmt.Fprintf(&w, "(* %s *)\nDefinition fn_%d : fn_entry := mkFn %d %s %s\n  %s\n  [", coqString(fi.Name), fi.ID, fi.NParams, coqInts(fi.SliceParams), coqInts(fi.IterParams), coqEff(r.Direct))
 		for k, e := range r.Edges {
 			if k > 0 {
 				w.WriteString(";")
@@ -284,6 +320,8 @@ func emitCoq(world *World, res []*FuncResult) string {
 	coqIDs("iterator_api", cl.Iterator, &w)
 	coqIDs("mutator_api", cl.Mutator, &w)
 	coqIDs("unclassified", cl.Unclassified, &w)
+	coqIDs("hook_api", cl.Hooks, &w)
+	coqIDs("package_inits", cl.Inits, &w)
 
 	w.WriteString("(* rule (I): every named non-interface type of the module with the named types its definition mentions *)\n")
 	w.WriteString("Definition type_mentions : list (string * list string) := [\n")
